@@ -2,6 +2,7 @@ import EgVerif.Proofs.RateLimiter
 import EgVerif.Proofs.RateLimiterExt
 import EgVerif.Proofs.RateLimiterFilter
 import EgVerif.Gen.FactsC09
+import EgVerif.Proofs.RateLimiterIR
 /-!
 # C09 — the rate limiter never releases more than `limitForPeriod` per period
 
@@ -164,6 +165,16 @@ theorem idle_gap_resets {p : Policy} (wf : p.WF) {s h lo} (r : Reach p s h lo) (
   rcases acquire_cases p wf s now hnow with ⟨hge, _⟩ | ⟨_, e⟩
   · exfalso; rw [h0] at hge; nlinarith
   · rw [e, h0]; simp [hL]
+
+/-- **Regenerated tie (translator).** `Gen.FactsC09IR.acquireIR` is produced on every run by the
+go/ast micro-translator (`harness/factextract/facts_c09_ir.go`) from the *current body* of
+`RateLimiter.acquirePermission`; it coincides with the hand-written model `acquire` on every
+input (enabled limiter). A source change that alters the arithmetic, a comparison or the branch
+structure changes `acquireIR` and this obligation stops checking. -/
+theorem acquire_regenerated_from_source (p : Policy) (s : RL) (now count : Int) :
+    Gen.FactsC09IR.extractionFailed = false ∧
+      Gen.FactsC09IR.acquireIR p s now count false = acquire p s now count :=
+  ⟨by decide, acquireIR_eq_model p s now count⟩
 
 /-- Facts obligation (regenerated from the source on every run): the modelled function is
 one critical section under the limiter's mutex with a single clock read, so concurrent
